@@ -17,22 +17,7 @@ def run(tier, seed, replay=None):
     leg = tlc_must_fail("DateRange", "DateRangeLegacy.cfg", expect="NumDaysCorrect", workers=2)
     rep.add_tlc(leg)
     # unbounded: Apalache discharges the inductive invariant of the partition loop for ANY length and k
-    # (Init => IndInv, IndInv /\ Next => IndInv', IndInv => Lemma) - the exact-cover lemma without bounds
-    import subprocess
-    outdir = os.path.join(WORK, "apalache")
-    obligations = [("--init=Init", "--inv=IndInv", "--length=0"), ("--init=IndInit", "--inv=IndInv", "--length=1"),
-                   ("--init=IndInit", "--inv=Lemma", "--length=0")]
-    done = 0
-    for ob in obligations:
-        r = subprocess.run(["timeout", "600", "apalache-mc", "check", f"--out-dir={outdir}", *ob, "PartitionInd.tla"],
-                           cwd=os.path.join(SPEC, "apalache"), stdout=subprocess.PIPE, stderr=subprocess.STDOUT, text=True)
-        if "EXITCODE: OK" not in r.stdout:
-            log(r.stdout[-1500:])
-            raise ToolError(f"Apalache obligation {ob} of PartitionInd not discharged")
-        done += 1
-    shutil.rmtree(outdir, ignore_errors=True)
-    rep.extra["apalache_inductive_obligations_discharged"] = done
-    log(f"[apalache] PartitionInd: {done}/3 obligations discharged (unbounded length and k)")
+    apalache_inductive(rep, "PartitionInd")
     # impl -> spec (+ the model's (len,k) table replayed through the real partition())
     trace = os.path.join(wd, "trace.ndjson")
     info = harness(["c14", "--out", trace, "--seed", seed, "--tier", tier], timeout=3000)
